@@ -32,7 +32,13 @@ rel = "lean/Harper/Driver/All.lean"
 add = [l for l in added_lines(rel) if l.strip()]
 s = open(os.path.join(V, rel)).read()
 imps = [l for l in add if l.startswith("import ") and l not in s]
-hands = [l.strip().rstrip(",") for l in add if l.strip().startswith('("') and l.strip().rstrip(",") not in s]
+import re as _re
+hands = []
+for l in add:
+    if l.strip().startswith('("'):
+        for m in _re.finditer(r'\("(\w+)", (\w+)\)', l):
+            if '("%s",' % m.group(1) not in s:
+                hands.append(m.group(0))
 if imps:
     first = s.index("import ")
     s = s[:first] + "\n".join(imps) + "\n" + s[first:]
@@ -77,7 +83,7 @@ json.dump(pv, open(os.path.join(V, "tools/props.json"), "w"), indent=1, ensure_a
 kv = json.load(open(os.path.join(V, "known_findings.json"))); kw = json.load(open(os.path.join(W, "known_findings.json")))
 have = {(r["property"], r["class"]) for r in kv["recorded"]}
 for r in kw.get("recorded", []):
-    if (r["property"], r["class"]) not in have:
+    if (r["property"], r["class"]) not in have and not any(r["class"] in f for f in kv.get("retired", [])):
         kv["recorded"].append(r); print("known +", r["property"], r["class"])
 json.dump(kv, open(os.path.join(V, "known_findings.json"), "w"), indent=1, ensure_ascii=False)
 # DESIGN notes
